@@ -87,10 +87,12 @@ type c02world struct {
 	vers   map[string]int  // ns/name -> version
 	ns     map[string]bool // namespace -> labelled
 	nextV  int
+	outside map[string]string // ns/name -> value of data.p, a field outside the binding's projection
+	nextP  int
 }
 
 func newC02world(hub *ZZHub) *c02world {
-	w := &c02world{client: vfx.NewMiniCluster(), hub: hub, vers: map[string]int{}, ns: map[string]bool{}}
+	w := &c02world{client: vfx.NewMiniCluster(), hub: hub, vers: map[string]int{}, ns: map[string]bool{}, outside: map[string]string{}}
 	for _, n := range []string{"n1", "n2"} {
 		w.addNs(n, false)
 	}
@@ -111,7 +113,7 @@ func (w *c02world) enabled(o c02op) bool {
 	switch o.kind {
 	case "create":
 		return w.ns[o.ns] && !exists
-	case "modify", "delete":
+	case "modify", "delete", "touch":
 		return exists
 	case "delns":
 		return w.ns[o.ns]
@@ -132,6 +134,7 @@ func (w *c02world) apply(o c02op) {
 			panic(err)
 		}
 		w.vers[o.ns+"/"+o.name] = w.nextV
+		w.outside[o.ns+"/"+o.name] = "x"
 		w.hub.Notify(c01gvr, "add", nil, obj)
 	case "modify":
 		w.nextV++
@@ -144,6 +147,21 @@ func (w *c02world) apply(o c02op) {
 			panic(err)
 		}
 		w.vers[o.ns+"/"+o.name] = w.nextV
+		w.outside[o.ns+"/"+o.name] = "x"
+		w.hub.Notify(c01gvr, "update", old, obj)
+	case "touch":
+		// a change outside the binding's projection ({p: .data.v}): only data.p changes
+		w.nextP++
+		old, err := dyn.Namespace(o.ns).Get(ctx, o.name, metav1.GetOptions{})
+		if err != nil {
+			panic(err)
+		}
+		val := fmt.Sprintf("t%d", w.nextP)
+		obj := c01obj(o.ns, o.name, w.vers[o.ns+"/"+o.name], val)
+		if _, err := dyn.Namespace(o.ns).Update(ctx, obj, metav1.UpdateOptions{}); err != nil {
+			panic(err)
+		}
+		w.outside[o.ns+"/"+o.name] = val
 		w.hub.Notify(c01gvr, "update", old, obj)
 	case "delete":
 		old, err := dyn.Namespace(o.ns).Get(ctx, o.name, metav1.GetOptions{})
@@ -154,6 +172,7 @@ func (w *c02world) apply(o c02op) {
 			panic(err)
 		}
 		delete(w.vers, o.ns+"/"+o.name)
+		delete(w.outside, o.ns+"/"+o.name)
 		w.hub.Notify(c01gvr, "delete", nil, old)
 	case "delns":
 		// a namespace goes away with everything in it
@@ -199,6 +218,10 @@ func (w *c02world) reference(c c02cfg) []string {
 	out := make([]string, len(ids))
 	for i, id := range ids {
 		out[i] = fmt.Sprintf("%s:v%d", id, w.vers[id])
+		if c.KeepFull {
+			// the full object is part of the snapshot: fields outside the projection must be current too
+			out[i] += ":p=" + w.outside[id]
+		}
 	}
 	return out
 }
@@ -232,7 +255,12 @@ func c02render(c c02cfg, snap []kemtypes.ObjectAndFilterResult) ([]string, strin
 			out = append(out, id+":v?")
 			continue
 		}
-		out = append(out, fmt.Sprintf("%s:v%d", id, ver))
+		item := fmt.Sprintf("%s:v%d", id, ver)
+		if c.KeepFull && it.Object != nil {
+			d, _ := it.Object.Object["data"].(map[string]any)
+			item += ":p=" + fmt.Sprint(d["p"])
+		}
+		out = append(out, item)
 	}
 	return out, ""
 }
@@ -244,6 +272,7 @@ func c02alphabet() []c02op {
 			ops = append(ops, c02op{k, o[0], o[1]})
 		}
 	}
+	ops = append(ops, c02op{"touch", "n1", "a"}, c02op{"touch", "n2", "a"})
 	return append(ops, c02op{"delns", "n2", ""}, c02op{"addns", "n3", ""})
 }
 
